@@ -1,4 +1,5 @@
 import PikaVerif.Model.Snd
+import PikaVerif.Model.SndRef
 import Driver.Util
 /-!
 Driver for the sequential sender model (C03, engine E0): parses the term of each case, runs the
@@ -264,6 +265,35 @@ def denoteMonitor (c : Case) : List String :=
     | _ => []
   | none => []
 
+/-- C03s: the term as a term of the payload-location model `SndRef` (partial inverse of `SndRef.emb`) -/
+def refOf : Term → Option SndRef.RT
+  | .just vs => some (.leaf (.value vs))
+  | .err e => some (.leaf (.error e))
+  | .stop => some (.leaf .stopped)
+  | .thn f p => (refOf p).map (.thn f)
+  | .rs p => (refOf p).map .rs
+  | .dos p => (refOf p).map .dos
+  | .sp p => (refOf p).map .sp
+  | .wa a [b] => match refOf a, refOf b with
+    | some x, some y => some (.wa2 x y)
+    | _, _ => none
+  | _ => none
+
+/-- C03s: for a statically typed case whose term lies in the fragment of `SndRef`, the payload-location model
+    must predict the signal the harness saw, exactly one delivery and no read of a destroyed payload (the
+    harness' `xl exc` / ledger lines are the implementation side of `uaf = false`: see `xlMonitors`). -/
+def refCheck (c : Case) (t : Term) : Option String :=
+  if c.get "static" "0" == "0" then none else
+  match refOf t with
+  | none => none
+  | some rt =>
+    let o := SndRef.run SndRef.Var.pinned rt
+    let sigs := c.lines.filter (·.startsWith "sig ")
+    if o.uaf then some "SndRef: the payload-location model reads a destroyed payload"
+    else if o.log.map (fun s => "sig " ++ showSig s) != sigs then
+      some s!"SndRef: model delivers {o.log.map showSig} but the harness saw {sigs}"
+    else none
+
 def runCase (c : Case) : String :=
   -- a static=1 case whose term is not a shape of the pure catalogue is not run by the pure binary
   if c.lines.contains "xl nomatch" || c.lines.contains "xl nostatic" then
@@ -280,6 +310,7 @@ def runCase (c : Case) : String :=
     let o := run cfg t
     let selfOk := o.aborted || (o.log == [denote t []] && !o.uaf)
     if !selfOk then s!"case {c.id} reject 0 [model-internal: exec {o.log.map showSig} vs denote {showSig (denote t [])}] ; {monS}"
+    else if let some msg := refCheck c t then s!"case {c.id} reject 0 [{msg}] ; {monS}"
     else if got == exp && crashed == expCrash && (crashed || c.status == "ok") then
       s!"case {c.id} accept {exp.length} ; final {if crashed then "terminated-as-modelled" else "ok"} ; {monS}"
     else
